@@ -133,7 +133,10 @@ def tensordot(lhs, rhs, axes=2):
         return intermediate
     else:
         left_axes = [ax if ax >= 0 else lhs.ndim + ax for ax in left_axes]
-        return intermediate.sum(axis=left_axes)
+        # in the operands' own type, as NumPy contracts (and as the single-block
+        # case, which sums nothing, already did): a default sum would widen
+        # small integers and count booleans
+        return intermediate.sum(axis=left_axes, dtype=dt)
 
 
 @derived_from(np, ua_args=["out"])
@@ -188,7 +191,12 @@ def vdot(a, b):
     """
     from dask_array._collection import ravel
 
-    return dot(ravel(a).conj(), ravel(b))
+    a = ravel(a)
+    if a.dtype.kind == "c":
+        # conjugating anything else changes nothing -- except the type of a
+        # boolean array, which np.conj turns into int8
+        a = a.conj()
+    return dot(a, ravel(b))
 
 
 def _matmul(a, b):
@@ -321,7 +329,7 @@ def matmul(a, b):
     # this issue: https://github.com/dask/dask/issues/6874
 
     # We will also perform the reduction without concatenation
-    out = _sum_wo_cat(out, axis=-2)
+    out = _sum_wo_cat(out, axis=-2, dtype=out.dtype)
 
     if a_is_1d or b_is_1d:
         from dask_array._collection import squeeze
